@@ -51,7 +51,8 @@ static int child_main(int argc, char** argv) {
     if (!getcwd(cwd, sizeof cwd)) strcpy(cwd, "?");
     n += snprintf(buf + n, sizeof buf - n, "R cwd %s\nR env %s\nR sid %d\nR uid %d %d\nR nenv %d\n", cwd, v ? v : "(unset)",
                   getsid(0) == getpid(), (int) getuid(), (int) getgid(), getenv("PATH") != NULL);
-    fd = open(argv[3], O_WRONLY | O_CREAT | O_TRUNC, 0600);
+    if (argv[3][0] != '/' || !strncmp(argv[3], "/dev", 4) || !strstr(argv[3], "/c12spawn/")) return 3;   /* only ever our own tmp dir */
+    fd = open(argv[3], O_WRONLY | O_CREAT | O_TRUNC | O_NOFOLLOW, 0600);
     if (fd < 0) return 3;
     if (write(fd, buf, n) != n) return 3;
     close(fd);
@@ -250,6 +251,11 @@ int main(int argc, char** argv) {
   if (argc >= 2 && !strcmp(argv[1], "child")) return child_main(argc, argv);
   if (argc < 2) return 2;
   snprintf(tmpdir, sizeof tmpdir, "%s", argv[1]);
+  { /* every unlink/creat of this harness happens under tmpdir: insist on a private directory of the check */
+    struct stat st; size_t L = strlen(tmpdir);
+    if (tmpdir[0] != '/' || L < 10 || strcmp(tmpdir + L - 9, "/c12spawn") || !strncmp(tmpdir, "/dev", 4) ||
+        stat(tmpdir, &st) || !S_ISDIR(st.st_mode)) { fprintf(stderr, "refusing tmpdir %s\n", tmpdir); return 2; }
+  }
   if (readlink("/proc/self/exe", self, sizeof self - 1) < 0) return 2;
   for (i = 0; i < 6; i++) {            /* fds 3..8 */
     int fd;
